@@ -92,3 +92,14 @@ package respondent
 //@
 //@ func (*context).RecvMsg
 //@   ensures isnil(result1) ==> result0 != nil
+//@
+//@ func (*context).SendMsg
+//@   before select#1 assert bestEffort ==> tq == closedQ
+//@   before select#1 assert !bestEffort && c.sendExpire > 0 ==> timer_d(tq) == c.sendExpire
+//@   before select#1 assert !bestEffort && c.sendExpire <= 0 ==> tq == nilQ
+//@   ensures sel("select#1") == 2 && !c.bestEffort ==> result == protocol.ErrSendTimeout
+//@
+//@ func (*context).RecvMsg
+//@   before select#1 assert expTime > 0 ==> timer_d(tq) == expTime
+//@   before select#1 assert expTime <= 0 ==> tq == nilQ
+//@   ensures sel("select#1") == 2 ==> result0 == nil && result1 == protocol.ErrRecvTimeout
